@@ -50,6 +50,10 @@ def jobs(tier):
                   prog2=prog((K_WALKK, 0)), **U))
     J.append(conc("1,0,0,0" if q else "2,0,0,0", workers=16, hmap=2, init=2, ninit=1, init_keys=0, prog0=prog((K_ADDU, 0)),
                   prog1=prog((K_ADDR, 0)), prog2=prog((K_RESIZE, 4)), prog3=prog((K_WALKK, 0), (K_WALKALL, 0)), **U))
+    for b, env in REAL:
+        J.append(conc_real(b, env, "2,0,0,0", hmap=0, enum=2, nenum=2, nops=1, ninit=1, init_keys=0, **U))
+        J.append(conc_real(b, env, "1,0,0,0" if q else "2,0,0,0", workers=16, hmap=0, enum=2, nenum=2, nops=1, ninit=2, init_keys=0x01,
+                           prog2=prog((K_WALKK, 0), (K_WALKALL, 0)), **U))
     if not q:
         J.append(conc("2,0,0,0", workers=16, hmap=0, enum=2, nenum=2, nops=2, ninit=1, init_keys=0, **U))
         J.append(conc("2,0,0,0", workers=16, hmap=0, enum=2, nenum=3, nops=1, ninit=1, init_keys=0, **U))
